@@ -253,7 +253,7 @@ def _add_children(cx, X, obj, assoc, n):
                               "association": assoc}})
     obj.add_data({"rd": {"values": mk_array(X, [i % 2 + 1 for i in range(n)], (n,), "int32"), "type": "referenced",
                          "value_map": {1: "one", 2: "two"}, "association": assoc}})
-    obj.find_or_create_property_group(name="pg", properties=[fd.uid, iv.uid])
+    obj.find_or_create_property_group(name="pg", properties=[iv.uid, fd.uid])      # not the order of creation
     return D
 
 
@@ -335,6 +335,9 @@ class CopyObject(_H5Scenario):
                 cp.collar = [-5.0, -6.0, -7.0]
                 edits["collar"] = _norm(cp.collar)
             cp.name = "edited copy"
+            md = cp.metadata
+            if isinstance(md, dict) and isinstance(md.get("k"), dict):
+                md["k"]["a"] = 99           # an edit inside the dictionary the copy hands out
             cp.metadata = {"other": 1}
             fd2 = [c for c in cp.children if c.name == "fd"]
             if fd2:
@@ -504,6 +507,81 @@ class CopyGroup(_H5Scenario):
             return "ok"
 
 
+class CopyDrillholeGroup(_H5Scenario):
+    """copy a drillhole group (concatenated storage): every hole with its data is reproduced (symbolic values on one
+    hole), so are the group's ordinary children (comments); the source group, live and re-read, is undisturbed"""
+    pid = "C12"
+    builtins_for = DH
+
+    def body(self, cx):
+        from geoh5py.workspace import Workspace
+        from .c04 import _build_group
+        cross, sizes, target = self.params["cross"], self.params["sizes"], self.params["target"]
+        h5shim.reset()
+        patch.STUBS_USED.add("h5py -> symx.h5shim proxy over the real in-memory HDF5 files (seam B, A-H5)")
+        ws, g, holes, depth_d, val_d = _build_group(sizes)
+        g.add_comment("logged by crew B", author="geologist")
+        tws = Workspace() if cross else ws
+
+        def holes_of(grp):
+            out = {}
+            for h in grp.children:
+                if not hasattr(h, "collar"):
+                    continue
+                out[h.name] = {"collar": _norm(h.collar), "surveys": _norm(h.surveys), "end_of_hole": _norm(h.end_of_hole),
+                               # concatenated children are loaded on demand: list them by name
+                               "data": {n_: _norm(h.get_data(n_)[0].values) for n_ in h.get_data_list() if h.get_data(n_)}}
+            return out
+
+        def extras_of(grp):
+            out = {}
+            for c in grp.children:
+                if hasattr(c, "collar"):
+                    continue
+                out[f"{type(c).__name__}:{c.name}"] = _norm(getattr(c, "values", None))
+            return out
+
+        def flat(hs):
+            return {f"{hn}.{k}" if k != "data" else f"{hn}/{dn}": (v if k != "data" else dv)
+                    for hn, rec in hs.items() for k, v in rec.items() for dn, dv in (v.items() if k == "data" else [(None, None)])}
+        ws.close()
+        with self.engine(cx) as X:
+            # a later session: every array is read through the model (nothing cached from the construction above)
+            ws = Workspace(ws.h5file)
+            g = [x for x in ws.groups if x.name == "DH"][0]
+            n = sizes[target]
+            newv = [cx.real(f"x{i}") for i in range(n)]
+            assume_not_ndv(cx, newv)
+            hole = [h for h in g.children if getattr(h, "name", None) == f"h{target}"][0]
+            hole.get_data("lbl")[0].values = mk_array(X, newv, (n,), "float64")
+            before, extras_before = flat(holes_of(g)), extras_of(g)
+            g2 = g.copy(parent=tws if cross else None)
+            # concatenator classes are built per entity (type("Concatenator" + name, ...)): compare name and bases
+            cx.prove(type(g2).__name__ == type(g).__name__ and type(g2).__bases__ == type(g).__bases__ and g2 is not g
+                     and g2.name == g.name, "the copy is a distinct drillhole group of the same class and name", "holes reproduced")
+            _prove_same(cx, flat(holes_of(g2)), before, "holes of the copy vs holes of the source", "holes reproduced")
+            _prove_same(cx, extras_of(g2), extras_before, "ordinary children of the group (comments)", "holes reproduced")
+            _prove_same(cx, flat(holes_of(g)), before, "source holes after the copy", "source undisturbed")
+            ug, ug2 = g.uid, g2.uid
+            if cross:
+                t2, gg2 = _reread(tws, ug2)
+                w2, gg = _reread(ws, ug)
+            else:
+                w2, gg = _reread(ws, ug)
+                t2, gg2 = None, w2.get_entity(ug2)[0]
+            cx.prove(gg is not None and gg2 is not None, "both groups found again in their files", "stored")
+            if gg is not None:
+                _prove_same(cx, flat(holes_of(gg)), before, "source holes re-read from the file", "stored")
+                _prove_same(cx, extras_of(gg), extras_before, "source comments re-read", "stored")
+            if gg2 is not None:
+                _prove_same(cx, flat(holes_of(gg2)), before, "holes of the copy re-read from its file", "stored")
+                _prove_same(cx, extras_of(gg2), extras_before, "comments of the copy re-read", "stored")
+            w2.close()
+            if t2 is not None:
+                t2.close()
+            return "ok"
+
+
 def scenarios(tier, seed):
     S = []
     targets = ["same", "group", "other"]
@@ -517,6 +595,7 @@ def scenarios(tier, seed):
         for cross in (False, True):
             S.append(CopyData(kind=kind, cross=cross))
     S += [CopyGroup(cross=False), CopyGroup(cross=True)]
+    S += [CopyDrillholeGroup(cross=True, sizes=[2, 1], target=0), CopyDrillholeGroup(cross=False, sizes=[1, 2], target=1)]
     return S
 
 
@@ -529,11 +608,11 @@ def main(tier, seed):
                      "A-H5: symbolic payloads are kept beside the real HDF5 files by a proxy and handed back unchanged",
                      "float data values differ from the float no-data sentinel (documented exception)"],
         outside=["survey classes (airborne / ground EM, tipper, direct current) and their partner links (C20)",
-                 "drillhole groups (concatenated storage): the copy-then-edit step is decided under C04 (CopyGroupThenEdit)",
+                 "editing the copy of a drillhole group (decided under C04, CopyGroupThenEdit)",
                  "masked copies and copies by extent (C07 MaskedCopy, C13)", "geo-images, file-name data, visual parameters",
                  "copy options other than parent / copy_children (clear_cache is exercised under C07)"],
         bounds="one object per class {Points, Curve, Surface, Grid2D 2x3, BlockModel 2x1x2, Octree, DrapeModel, Drillhole} with 2-6 "
                "data values x targets {same parent, another group, another workspace} x children {copied, not copied}; data copies of "
                "3 values x {float, integer, referenced} x {same, other workspace}; one two-level group subtree x {same, other workspace}",
-        expected_outcomes={"CopyObject": {"ok"}, "CopyData": {"ok"}, "CopyGroup": {"ok"}},
+        expected_outcomes={"CopyObject": {"ok"}, "CopyData": {"ok"}, "CopyGroup": {"ok"}, "CopyDrillholeGroup": {"ok"}},
     )
